@@ -17,6 +17,13 @@ pub fn write_to_mmap(mmap: &MmapMut, offset: usize, data: &[u8]) {
         .expect("offset + data.len() overflow");
     assert!(end <= mmap.len());
 
+    // Verification hook (Kani build only): the platform model records the write as a ghost
+    // event (and performs a bounded copy when the map has backing bytes).
+    #[cfg(kani)]
+    if anydb_verif_platform::mmap::ghost_write(mmap, offset, data) {
+        return;
+    }
+
     unsafe {
         let ptr = mmap.as_ptr() as *mut u8;
         std::ptr::copy_nonoverlapping(data.as_ptr(), ptr.add(offset), data.len());
